@@ -226,7 +226,6 @@ theorem shardIndexFor_inverse (s : Sched) (hlen : s.peers.length = s.total + 1)
     have hr : ¬ ((if s.localIdx ≥ pi then s.localIdx - 1 else s.localIdx) ≥ s.total) := by
       split <;> omega
     simp only [hr, if_false, hpi]
-    congr 1
     have hidx : (if (if s.localIdx ≥ pi then s.localIdx - 1 else s.localIdx) ≥ pi then
         (if s.localIdx ≥ pi then s.localIdx - 1 else s.localIdx) + 1
         else (if s.localIdx ≥ pi then s.localIdx - 1 else s.localIdx)) = s.localIdx := by
@@ -235,7 +234,7 @@ theorem shardIndexFor_inverse (s : Sched) (hlen : s.peers.length = s.total + 1)
         have : s.localIdx - 1 ≥ pi := by omega
         simp only [this, if_true]; omega
       · simp only [h, if_false]
-    rw [hidx, List.getD_eq_getElem?_getD, List.getElem?_eq_getElem hll, hlget]; rfl
+    rw [hidx, List.getElem?_eq_getElem hll, hlget]
 
 /-- The sender the protocol designates for shard `i` of `pub`, as seen by the local peer: the
 designated broadcaster, or the publisher itself when the local peer is the designated one. -/
